@@ -27,6 +27,7 @@ META = dict(
 META["text"] += ' R3 also: the node function has exactly its four parameters, no mutable default and no global state.'
 META["text"] += ' R3 decides by short-circuit paths with three-valued decisions (a merged `if prune or not S` is read as its two cases). R5 also: every assertion of a type is appended (nothing before the append can leave the iteration) and the candidate list is a map over the ids handed in.'
 META["text"] += ' R5 also: the trees are built over the candidate ids as given (no conversion, no re-binding), read per element of the list handed in.'
+META["text"] += ' R5 also: the assertion_json entry of an assertion is found by its position in the log.'
 
 
 from ..canon import expand_locals  # noqa: E402
@@ -319,6 +320,21 @@ def run(chk):
         if isinstance(x, ast.Compare) and isinstance(x.left, ast.Subscript) and isinstance(x.left.slice, ast.Constant) \
                 and x.left.slice.value == "assertion_type" and isinstance(x.left.value, ast.Name):
             DET = x.left.value.id
+    # the description of the i-th assertion is the i-th entry of assertion_json (the log lists them in the same order; the keys of
+    # the assertions dict are free-form identifiers): the detail is looked up by the position of the assertion in the loop
+    dets = [s_ for s_ in walk_local(pa) if isinstance(s_, ast.Assign) and any(isinstance(t_, ast.Name) and t_.id == DET for t_ in s_.targets)]
+    by_pos = False
+    for s_ in dets:
+        v_ = s_.value
+        loop_ = next((a_ for a_ in ancestors(s_) if isinstance(a_, ast.For)), None)
+        if isinstance(v_, ast.Subscript) and isinstance(v_.slice, ast.Name) and loop_ is not None and isinstance(loop_.iter, ast.Call) \
+                and norm(loop_.iter.func) == "enumerate" and isinstance(loop_.target, ast.Tuple) and norm(loop_.target.elts[0]) == v_.slice.id \
+                and "assertions" in norm(loop_.iter.args[0]):
+            by_pos = True
+    chk.ob("C20.R5", f"{VIS}:parseAssertions", "detail-of-the-ith-assertion-is-the-ith-entry", by_pos,
+           "the assertion_json entry describing an assertion is found by the assertion's position in the log, not by a key rebuilt "
+           "from its content (whoever wrote the log chose the keys)", node=dets[0] if dets else pa, strength="N",
+           lookups=[norm(s_.value)[:60] for s_ in dets])
     apps = [x for x in ast.walk(pa) if isinstance(x, ast.Call) and norm(x.func) in (f"{WOL}.append", f"{IRVL}.append")]
     env = {}
     ok_wo = ok_irv = False
